@@ -126,6 +126,10 @@ class Coop:
         self.closing = False
         self.crash = None
         self.boot_parent = None
+        self.events = []
+        self.rec_between = False
+        self.stale = False
+        self.quiet = False          # True while the collection is being constructed: main's SPs do not count
         self.real_threads = []
         self.depth = _real_threading.local()
 
@@ -155,6 +159,8 @@ class Coop:
 
     def switch(self, cond=None):
         me = self.me()
+        if self.quiet and me == 0:
+            return
         with self.cv:
             if self.aborted:
                 raise Abort()
@@ -206,8 +212,15 @@ DEFS_DIR: Path = None  # type: ignore
 
 
 class ShimEvent:
+    """threading.Event under the cooperative scheduler.  Besides the flag it keeps the bookkeeping needed to
+    recognise, from the REAL run alone, the recorded defect class `stale write_finished`: the writer executes
+    write_finished.set() while write_to_disk is set again, or while the recorder is inside trigger_write between
+    write_finished.clear() and write_to_disk.set()."""
+
     def __init__(self):
         self.flag = False
+        self.idx = len(COOP.events)      # DataCollection.__init__ creates write_to_disk (0), then write_finished (1)
+        COOP.events.append(self)
 
     def is_set(self):
         COOP.switch()
@@ -215,10 +228,17 @@ class ShimEvent:
 
     def set(self):
         COOP.switch()
+        if self.idx == 1 and COOP.me() != 0:
+            if COOP.events[0].flag or COOP.rec_between:
+                COOP.stale = True
+        if self.idx == 0 and COOP.me() == 0:
+            COOP.rec_between = False
         self.flag = True
 
     def clear(self):
         COOP.switch()
+        if self.idx == 1 and COOP.me() == 0 and sys._getframe(1).f_code.co_name == "trigger_write":
+            COOP.rec_between = True
         self.flag = False
 
     def wait(self, timeout=None):
@@ -458,7 +478,9 @@ def run_case(case, mods):
         base.mkdir()
         md = LoggingMetadata()
         md._metadata["session"] = 0
+        coop.quiet = True
         dc = dc_mod.DataCollection("col", str(base), "s$(session)", md)
+        coop.quiet = False
         for d in case["datasets"]:
             ds = ds_mod.DataSet("col", d["name"], "", d["name"], fmts[d["fmt"]], d["interval"], d["types"], md)
             dc.add_data_set(ds)
@@ -509,6 +531,7 @@ def run_case(case, mods):
         res["crash"] = coop.crash
         res["deadlock"] = coop.deadlock
         res["warnings"] = warn.n
+        res["stale"] = coop.stale
         # make sure nothing is left open before reading back
         for ds in dc.datasets:
             try:
